@@ -81,109 +81,232 @@ def _subst(e: ast.expr, env: Dict[str, ast.expr]) -> ast.expr:
     return ast.fix_missing_locations(_Subst(env).visit(copy.deepcopy(e))) if env else e
 
 
-class _Frame:
-    def __init__(self):
-        self.fixed: List[Optional[str]] = []
-        self.payload: Optional[str] = None
-        self.trailer: List[str] = []
-        self.crc_var: Optional[str] = None
-        self.crc_after = None
-        self.returned = False
+class _BytesEval:
+    """Abstract execution of a frame builder on symbolic byte strings.  A value is
+       ('bytes', [segment, ...])   a byte string; segments are byte forms ('hi(offset)', 'const:6', 'raw(cmd)', ...),
+                                   ('payload', name) for a caller-supplied byte string, ('crc-lo' | 'crc-hi', covered segments)
+       ('crc', covered segments)   the integer _modbus_checksum(...) of a byte string
+       ('scalar', expression)      anything else (substituted into later byte expressions).
+    Understands bytearray(n) / bytes((..)) / concatenation / index stores / append / extend / x.to_bytes(2, order) and
+    package helpers that are straight-line code (evaluated with their parameters bound)."""
 
+    def __init__(self, ctx: Ctx):
+        self.ctx, self.prog, self.res = ctx, ctx.prog, ctx.res
 
-def _run_builder(ctx: Ctx, fn: FuncInfo, fr: _Frame, buf: Optional[str], env: Dict[str, ast.expr], depth: int = 0) -> Optional[str]:
-    """Abstractly execute the straight-line body of a frame builder (or of a helper it hands the frame to) on the
-    symbolic frame *fr*.  Scalar locals are substituted into the byte expressions; returns 'frame' when the function
-    returns bytes(<frame>)."""
-    prog, res = ctx.prog, ctx.res
-    if depth > 3:
-        raise AnalysisError("frame helpers nested too deeply at %s" % fn.short)
-    result = None
+    # ------------------------------------------------------------ expressions
+    def _scalar_env(self, env):
+        return {k: v[1] for k, v in env.items() if v[0] == "scalar"}
 
-    def helper_call(call: ast.Call):
-        """A package function that receives the frame buffer: interpret its body on the same frame."""
-        if buf is None or not any(isinstance(a, ast.Name) and a.id == buf for a in call.args):
-            return None
-        ct = res.resolve_call(call, fn)
-        if len(ct.funcs) != 1 or ct.funcs[0].is_lambda:
-            return None
-        g = ct.funcs[0]
-        genv: Dict[str, ast.expr] = {}
-        gbuf = None
-        for pn in g.params:
-            a = arg_for(call, g, pn)
-            if a is None:
-                continue
-            if isinstance(a, ast.Name) and a.id == buf:
-                gbuf = pn
-            else:
-                genv[pn] = _subst(a, env)
-        if gbuf is None:
-            return None
-        return (_run_builder(ctx, g, fr, gbuf, genv, depth + 1),)
+    def byte_of(self, e: ast.expr, env, fn: FuncInfo):
+        """One byte: its form, or a crc half when it is the low / high byte of a crc value."""
+        crc_names = {k: v for k, v in env.items() if v[0] == "crc"}
+        form = byte_form(self.prog, fn.module, _subst(e, self._scalar_env(env)))
+        m = re.fullmatch(r"(hi|lo)\((\w+)\)", form)
+        if m and m.group(2) in crc_names:
+            return ("crc-" + m.group(1), tuple(crc_names[m.group(2)][1]))
+        return form
 
-    for st in fn.node.body:
-        if isinstance(st, ast.Expr) and isinstance(st.value, ast.Constant):
-            continue
-        if isinstance(st, (ast.Assign, ast.AnnAssign)):
-            tgt = st.targets[0] if isinstance(st, ast.Assign) else st.target
-            val = st.value
-            if isinstance(tgt, ast.Name) and isinstance(val, ast.Call) and norm(val.func) == "bytearray" and len(val.args) == 1 and buf is None:
-                buf = tgt.id
-                fr.fixed = [None] * prog.consteval(_subst(val.args[0], env), fn.module)
+    def ev(self, e: ast.expr, env, fn: FuncInfo, depth: int = 0):
+        prog = self.prog
+        if isinstance(e, ast.Name):
+            if e.id in env:
+                return env[e.id]
+            if e.id in fn.params:
+                return ("scalar", e)
+            return ("scalar", e)
+        if isinstance(e, ast.BinOp) and isinstance(e.op, ast.Add):
+            l, r = self.ev(e.left, env, fn, depth), self.ev(e.right, env, fn, depth)
+            if l[0] == "bytes" and r[0] == "bytes":
+                return ("bytes", list(l[1]) + list(r[1]))
+            if l[0] == "bytes" or r[0] == "bytes":
+                other = r if l[0] == "bytes" else l
+                if other[0] == "scalar" and isinstance(other[1], ast.Name):
+                    seg = [("payload", other[1].id)]
+                    return ("bytes", (list(l[1]) + seg) if l[0] == "bytes" else (seg + list(r[1])))
+                raise AnalysisError("%s concatenates bytes with %s" % (fn.short, norm(e)[:60]))
+            return ("scalar", _subst(e, self._scalar_env(env)))
+        if isinstance(e, ast.Call):
+            name = norm(e.func)
+            if name in ("bytes", "bytearray") and len(e.args) == 1 and not e.keywords:
+                a = e.args[0]
+                if isinstance(a, (ast.Tuple, ast.List)):
+                    return ("bytes", [self.byte_of(x, env, fn) for x in a.elts])
+                v = self.ev(a, env, fn, depth)
+                if v[0] == "bytes":
+                    return ("bytes", list(v[1]))
+                try:
+                    n = prog.consteval(_subst(a, self._scalar_env(env)), fn.module)
+                    if isinstance(n, int) and name == "bytearray" or isinstance(n, int):
+                        return ("bytes", ["const:0"] * n)
+                except NotConst:
+                    pass
+                if v[0] == "scalar" and isinstance(v[1], ast.Name):
+                    return ("bytes", [("payload", v[1].id)])
+                raise AnalysisError("%s: %s is not understood by the frame builder analysis" % (fn.short, norm(e)[:60]))
+            if name == "_modbus_checksum" and len(e.args) == 1:
+                v = self.ev(e.args[0], env, fn, depth)
+                if v[0] != "bytes":
+                    raise AnalysisError("%s: checksum of %s" % (fn.short, norm(e.args[0])))
+                return ("crc", list(v[1]))
+            if isinstance(e.func, ast.Attribute) and e.func.attr == "to_bytes":
+                recv = e.func.value
+                args = list(e.args)
+                if isinstance(recv, ast.Name) and recv.id == "int" and args:
+                    recv, args = args[0], args[1:]
+                kw = {k.arg: k.value for k in e.keywords}
+                n_e = args[0] if args else kw.get("length")
+                o_e = args[1] if len(args) > 1 else kw.get("byteorder")
+                try:
+                    n = prog.consteval(n_e, fn.module) if n_e is not None else None
+                    order = prog.consteval(o_e, fn.module) if o_e is not None else "big"
+                except NotConst:
+                    n = order = None
+                rv = self.ev(recv, env, fn, depth)
+                if n == 2 and order in ("big", "little"):
+                    if rv[0] == "crc":
+                        halves = [("crc-hi", tuple(rv[1])), ("crc-lo", tuple(rv[1]))]
+                    else:
+                        x = _subst(recv, self._scalar_env(env))
+                        masked = isinstance(x, ast.BinOp) and isinstance(x.op, ast.BitAnd) and any(_const(prog, fn, s_) == 0xFFFF for s_ in (x.left, x.right))
+                        inner = (x.left if _const(prog, fn, x.right) == 0xFFFF else x.right) if masked else x
+                        t = norm(inner)
+                        halves = ["hi(%s)" % t, "lo(%s)" % t] if masked else ["tobytes-hi(%s)" % t, "tobytes-lo(%s)" % t]
+                    return ("bytes", halves if order == "big" else halves[::-1])
+                if n == 1:
+                    return ("bytes", ["raw(%s)" % norm(_subst(recv, self._scalar_env(env)))])
+                raise AnalysisError("%s: %s is not understood by the frame builder analysis" % (fn.short, norm(e)[:60]))
+            # package helper: straight-line body evaluated with its parameters bound
+            ct = self.res.resolve_call(e, fn)
+            if len(ct.funcs) == 1 and not ct.funcs[0].is_lambda and depth < 4 and ct.ctor is None:
+                g = ct.funcs[0]
+                genv = {}
+                for pn in g.params:
+                    a = arg_for(e, g, pn)
+                    if a is not None:
+                        genv[pn] = self.ev(a, env, fn, depth)
+                        if genv[pn][0] == "scalar":
+                            genv[pn] = ("scalar", _subst(a, self._scalar_env(env)))
+                r = self.run(g, genv, depth + 1)
+                if r is not None:
+                    return r
+            return ("scalar", _subst(e, self._scalar_env(env)))
+        return ("scalar", _subst(e, self._scalar_env(env)))
+
+    # ------------------------------------------------------------- statements
+    def run(self, fn: FuncInfo, env, depth: int = 0):
+        """Value returned by the straight-line function *fn* (None when it returns nothing)."""
+        env = dict(env)
+        for st in fn.node.body:
+            if isinstance(st, ast.Expr) and isinstance(st.value, ast.Constant):
                 continue
-            if isinstance(tgt, ast.Subscript) and isinstance(tgt.value, ast.Name) and tgt.value.id == buf:
-                idx = prog.consteval(_subst(tgt.slice, env), fn.module)
-                if fr.payload is not None or fr.trailer:
-                    raise AnalysisError("%s stores into the fixed part after extending the frame" % fn.short)
-                fr.fixed[idx] = byte_form(prog, fn.module, _subst(val, env))
-                continue
-            if isinstance(tgt, ast.Name) and isinstance(val, ast.Call) and norm(val.func) == "_modbus_checksum" and buf is not None and norm(val.args[0]) == buf:
-                fr.crc_var = tgt.id
-                fr.crc_after = (len(fr.fixed), fr.payload, len(fr.trailer))
-                continue
-            if isinstance(tgt, ast.Name) and val is not None and tgt.id != buf and not any(isinstance(x, ast.Name) and x.id == buf for x in ast.walk(val)):
-                env = dict(env)
-                env[tgt.id] = _subst(val, env)     # scalar local (size = len(values))
-                continue
-        if isinstance(st, ast.Expr) and isinstance(st.value, ast.Call) and isinstance(st.value.func, ast.Attribute) and isinstance(st.value.func.value, ast.Name) \
-                and st.value.func.value.id == buf:
-            m = st.value.func.attr
-            if m == "extend":
-                fr.payload = norm(_subst(st.value.args[0], env))
-                continue
-            if m == "append":
-                fr.trailer.append(byte_form(prog, fn.module, _subst(st.value.args[0], env)))
-                continue
-        if isinstance(st, ast.Expr) and isinstance(st.value, ast.Call):
-            r = helper_call(st.value)
-            if r is not None:
-                continue
-        if isinstance(st, ast.Return):
-            v = st.value
-            if isinstance(v, ast.Call) and norm(v.func) == "bytes" and len(v.args) == 1 and norm(v.args[0]) == buf:
-                result = "frame"
-                continue
-            if isinstance(v, ast.Call):
-                r = helper_call(v)
-                if r is not None and r[0] == "frame":
-                    result = "frame"
+            if isinstance(st, (ast.Assign, ast.AnnAssign)) and getattr(st, "value", None) is not None:
+                tgt = st.targets[0] if isinstance(st, ast.Assign) else st.target
+                if isinstance(tgt, ast.Name):
+                    env[tgt.id] = self.ev(st.value, env, fn, depth)
                     continue
-            raise AnalysisError("%s does not return bytes(<frame>)" % fn.short)
-        raise AnalysisError("statement %s of %s is not understood by the frame builder analysis" % (norm(st)[:60], fn.short))
-    return result
+                if isinstance(tgt, ast.Subscript) and isinstance(tgt.value, ast.Name) and env.get(tgt.value.id, ("",))[0] == "bytes" \
+                        and not isinstance(tgt.slice, ast.Slice):
+                    try:
+                        idx = self.prog.consteval(_subst(tgt.slice, self._scalar_env(env)), fn.module)
+                    except NotConst:
+                        raise AnalysisError("%s stores at a non-constant index %s" % (fn.short, norm(tgt.slice)))
+                    segs = list(env[tgt.value.id][1])
+                    if not (0 <= idx < len(segs)) or any(isinstance(x, tuple) and x[0] == "payload" for x in segs[:idx + 1]):
+                        raise AnalysisError("%s stores into byte %s outside the fixed part of the frame" % (fn.short, idx))
+                    segs[idx] = self.byte_of(st.value, env, fn)
+                    env[tgt.value.id] = ("bytes", segs)
+                    continue
+            if isinstance(st, ast.AugAssign) and isinstance(st.op, ast.Add) and isinstance(st.target, ast.Name) and env.get(st.target.id, ("",))[0] == "bytes":
+                v = self.ev(st.value, env, fn, depth)
+                if v[0] == "scalar" and isinstance(v[1], ast.Name):
+                    v = ("bytes", [("payload", v[1].id)])
+                if v[0] != "bytes":
+                    raise AnalysisError("%s: %s" % (fn.short, norm(st)[:60]))
+                env[st.target.id] = ("bytes", list(env[st.target.id][1]) + list(v[1]))
+                continue
+            if isinstance(st, ast.Expr) and isinstance(st.value, ast.Call) and isinstance(st.value.func, ast.Attribute) \
+                    and isinstance(st.value.func.value, ast.Name) and env.get(st.value.func.value.id, ("",))[0] == "bytes" and len(st.value.args) == 1:
+                buf, m, a = st.value.func.value.id, st.value.func.attr, st.value.args[0]
+                segs = list(env[buf][1])
+                if m == "append":
+                    segs.append(self.byte_of(a, env, fn))
+                    env[buf] = ("bytes", segs)
+                    continue
+                if m == "extend":
+                    v = self.ev(a, env, fn, depth)
+                    if v[0] == "bytes":
+                        segs.extend(v[1])
+                    elif v[0] == "scalar" and isinstance(v[1], ast.Name):
+                        segs.append(("payload", v[1].id))
+                    else:
+                        raise AnalysisError("%s extends the frame with %s" % (fn.short, norm(a)[:60]))
+                    env[buf] = ("bytes", segs)
+                    continue
+            if isinstance(st, ast.Expr) and isinstance(st.value, ast.Call):
+                # a helper that mutates the buffer it is given (appends the checksum): evaluate it on the same value
+                ct = self.res.resolve_call(st.value, fn)
+                bufs = [a.id for a in st.value.args if isinstance(a, ast.Name) and env.get(a.id, ("",))[0] == "bytes"]
+                if len(ct.funcs) == 1 and len(bufs) == 1 and depth < 4:
+                    g = ct.funcs[0]
+                    genv = {}
+                    bparam = None
+                    for pn in g.params:
+                        a = arg_for(st.value, g, pn)
+                        if a is None:
+                            continue
+                        if isinstance(a, ast.Name) and a.id == bufs[0]:
+                            bparam = pn
+                        genv[pn] = self.ev(a, env, fn, depth)
+                    sub = _BytesEval(self.ctx)
+                    out_env = sub._run_env(g, genv, depth + 1)
+                    if bparam is not None and out_env is not None and out_env.get(bparam, ("",))[0] == "bytes":
+                        env[bufs[0]] = out_env[bparam]
+                        continue
+            if isinstance(st, ast.Return):
+                return self.ev(st.value, env, fn, depth) if st.value is not None else None
+            raise AnalysisError("statement %s of %s is not understood by the frame builder analysis" % (norm(st)[:60], fn.short))
+        self._last_env = env
+        return None
+
+    def _run_env(self, fn, env, depth):
+        self._last_env = None
+        saved = dict(env)
+        r = self.run(fn, env, depth)
+        if r is not None:
+            # the helper returned a value: the mutated buffer is the returned bytes when it is bytes(<param>)
+            return None
+        return self._last_env
 
 
 def build_frame(ctx: Ctx, fn: FuncInfo) -> Tuple[List[str], Optional[str], List[str], Optional[str]]:
     """(fixed bytes, name of the extended payload or None, trailer bytes, crc variable)"""
-    fr = _Frame()
-    if _run_builder(ctx, fn, fr, None, {}) != "frame":
+    v = _BytesEval(ctx).run(fn, {})
+    if v is None or v[0] != "bytes":
         raise AnalysisError("%s does not return bytes(<frame>)" % fn.short)
-    fixed = [b if b is not None else "const:0" for b in fr.fixed]    # bytearray(n) is zero filled
-    crc_ok = None
-    if fr.crc_var is not None:
-        crc_ok = "after-all" if fr.crc_after == (len(fixed), fr.payload, 0) else "early"
-    return fixed, fr.payload, fr.trailer, (fr.crc_var + ":" + crc_ok) if fr.crc_var else None
+    segs = list(v[1])
+    pay = [i for i, x in enumerate(segs) if isinstance(x, tuple) and x[0] == "payload"]
+    if len(pay) > 1:
+        raise AnalysisError("%s puts more than one caller-supplied byte string into the frame" % fn.short)
+    cut = pay[0] if pay else None
+    crcs = [i for i, x in enumerate(segs) if isinstance(x, tuple) and x[0].startswith("crc-")]
+    body_end = crcs[0] if crcs else len(segs)
+    fixed = segs[:cut] if cut is not None else segs[:body_end]
+    payload = segs[cut][1] if cut is not None else None
+    trailer_raw = segs[cut + 1:] if cut is not None else segs[body_end:]
+    if any(isinstance(x, tuple) for x in fixed):
+        raise AnalysisError("%s: a checksum byte precedes the end of the header" % fn.short)
+    crc = None
+    trailer = []
+    for k, x in enumerate(trailer_raw):
+        if isinstance(x, tuple) and x[0].startswith("crc-"):
+            covered = list(x[1])
+            before = segs[:(cut + 1 if cut is not None else body_end) + [j for j, y in enumerate(trailer_raw) if isinstance(y, tuple) and y[0].startswith("crc-")][0]]
+            ok = covered == before
+            crc = "checksum:" + ("after-all" if ok and (crc is None or crc.endswith("after-all")) else "early")
+            trailer.append("%s(checksum)" % x[0][4:])
+        else:
+            trailer.append(x)
+    return [str(x) for x in fixed], payload, trailer, crc
 
 
 def _flat_concat(e: ast.expr) -> List[str]:
